@@ -28,6 +28,7 @@ fn main() {
         Some("asyncw") => m_asyncw::run(),
         Some("cexec") => m_cexec::run(),
         Some("cexec13") => m_cexec::run13(),
+        Some("cexecdrop") => m_cexec::run_drop(),
         Some("streams") => m_cexec::run_streams(),
         Some("crun") => m_crun::run(),
         Some("cchan") => m_cchan::run(),
